@@ -112,6 +112,35 @@ Section Statements.
         end_markers (s_id s) evs = 0.
   Proof. exact (window_prefix_always part part_pos time_of index_of sort_by_time n0 ops). Qed.
 
+  (* a command that is answered with an error - a rejected request (malformed parameters, unknown key, bad JSON:
+     [OReject]), a window change / stop / search / lookup with an unknown id, an index lookup of a missing index -
+     changes nothing: every stream keeps its id, window, sent range and index, the id counter does not move, and
+     the error reply is the only thing sent.  (So the announced id stays usable and no frame can appear under an
+     id that was not announced.) *)
+  Theorem C16_rejected_command_changes_nothing (sv sv' : server M) (o : op M) ev :
+    step part time_of index_of sort_by_time sv o = Ok (sv', ev) -> existsb is_error_reply ev = true ->
+    sv' = sv /\ (ev = [EErr] \/ exists id, ev = [EReplyLookup id None]).
+  Proof. exact (rejected_command_changes_nothing part time_of index_of sort_by_time sv sv' o ev). Qed.
+
+  (* per command *)
+  Theorem C16_rejected_request_is_identity (sv : server M) :
+    step part time_of index_of sort_by_time sv OReject = Ok (sv, [EErr]).
+  Proof. reflexivity. Qed.
+  Theorem C16_window_change_unknown_id_is_identity (sv : server M) id a b :
+    find_stream id (sv_streams sv) = None -> step part time_of index_of sort_by_time sv (OWindow id a b) = Ok (sv, [EErr]).
+  Proof. exact (window_change_unknown_id_is_identity part time_of index_of sort_by_time sv id a b). Qed.
+  Theorem C16_stop_unknown_id_is_identity (sv : server M) id :
+    find_stream id (sv_streams sv) = None -> step part time_of index_of sort_by_time sv (OStop id) = Ok (sv, [EErr]).
+  Proof. exact (stop_unknown_id_is_identity part time_of index_of sort_by_time sv id). Qed.
+  Theorem C16_search_unknown_id_is_identity (sv : server M) id a maxr fs :
+    find_stream id (sv_streams sv) = None -> step part time_of index_of sort_by_time sv (OSearch id a maxr fs) = Ok (sv, [EErr]).
+  Proof. exact (search_unknown_id_is_identity part time_of index_of sort_by_time sv id a maxr fs). Qed.
+  Theorem C16_lookup_unknown_id_is_identity (sv : server M) id x :
+    find_stream id (sv_streams sv) = None ->
+    step part time_of index_of sort_by_time sv (OLookupIdx id x) = Ok (sv, [EErr]) /\
+    step part time_of index_of sort_by_time sv (OLookupTime id x) = Ok (sv, [EErr]).
+  Proof. exact (lookup_unknown_id_is_identity part time_of index_of sort_by_time sv id x). Qed.
+
   (* no frame carries a stream id before the reply that announced this id (stream / query / stream_change_window) *)
   Theorem C16_ids_announced_first n0 ops sv evs :
     run (server0 n0) ops = Ok (sv, evs) -> well_announced [] evs.
@@ -303,6 +332,16 @@ Theorem C16_query_end_rule_needs_unbounded_send :
                  map c_index ms = [0; 1; 2; 3; 4]).
 Proof. cbv zeta. split; eexists _, _; (split; [vm_compute; reflexivity|vm_compute; reflexivity]). Qed.
 
+(* a session with rejected commands in between: the stream keeps id 1, the later window change finds it and gets
+   the new window under the newly announced id 2 *)
+Example C16_nonvacuous_rejected :
+  let log := expand [(6, 1, 1)] in
+  let ops := [ONew true true (cfset []) 0 2; OTick log true; OReject; OWindow 7 0 1; OReject; OWindow 1 3 5; OTick [] true] in
+  exists sv evs, c_run false (server0 1) ops = Ok (sv, evs) /\
+    map c_index (delivered 1 evs) = [0; 1] /\ map c_index (delivered 2 evs) = [3; 4] /\
+    filter is_error_reply evs = [EErr; EErr; EErr] /\ map (@s_id cmsg) (sv_streams sv) = [2].
+Proof. cbv zeta. eexists _, _. split; [vm_compute; reflexivity|]. repeat split; vm_compute; reflexivity. Qed.
+
 (* ---------------------------------------------------------------- non-vacuity *)
 (* a schedule with three batches, chunk sizes 1, 2 and 100, on a query with window end 2 *)
 Example C16_nonvacuous_index :
@@ -345,6 +384,13 @@ Print Assumptions C16_fast_run_is_run.
 Print Assumptions C16_query_end_only_when_complete.
 Print Assumptions C16_query_end_rule_needs_unbounded_send.
 Print Assumptions C16_window_prefix_always.
+Print Assumptions C16_rejected_command_changes_nothing.
+Print Assumptions C16_rejected_request_is_identity.
+Print Assumptions C16_window_change_unknown_id_is_identity.
+Print Assumptions C16_stop_unknown_id_is_identity.
+Print Assumptions C16_search_unknown_id_is_identity.
+Print Assumptions C16_lookup_unknown_id_is_identity.
+Print Assumptions C16_nonvacuous_rejected.
 Print Assumptions C16_ids_announced_first.
 Print Assumptions C16_search_pages_partition.
 Print Assumptions C16_search_pages_partition_reachable.
